@@ -7,9 +7,13 @@ import (
 	"fmt"
 	"os"
 	"path/filepath"
+	"strconv"
 	"strings"
 	"syscall"
 	"testing"
+	"time"
+
+	"github.com/TheCacophonyProject/window"
 )
 
 // TestVerifConfigLengths: the recording-length settings as the daemon reads them at start-up (ParseConfig on a
@@ -219,5 +223,63 @@ func TestVerifPrune(t *testing.T) {
 		}
 		enc.Encode(map[string]interface{}{"ev": "prune", "scenario": si, "total": fs.Blocks, "avail": fs.Bavail, "files": files,
 			"others": others, "left": left, "others_left": othersLeft, "err": err != nil})
+	}
+}
+
+// TestVerifConfigWindow: the recording window as the daemon loads it (ParseConfig on a generated config.toml with a
+// [location] and absolute or sunrise/sunset-relative [windows]) next to window.New(start, stop, lat, long) of the
+// unchanged window module, both asked at the same scripted instants (Window.Now): Active, NextStart, NextEnd.
+func TestVerifConfigWindow(t *testing.T) {
+	in, outp := os.Getenv("VERIF_SCRIPT"), os.Getenv("VERIF_OUT")
+	if in == "" || outp == "" {
+		t.Skip("driver only")
+	}
+	b, _ := os.ReadFile(in)
+	var all struct {
+		Configs []struct {
+			Toml, Start, Stop, Lat, Long string
+		} `json:"configs"`
+		Instants []int64 `json:"instants"`
+	}
+	if err := json.Unmarshal(b, &all); err != nil {
+		t.Fatal(err)
+	}
+	fo, _ := os.Create(outp)
+	defer fo.Close()
+	enc := json.NewEncoder(fo)
+	ask := func(w *window.Window) []int64 {
+		out := []int64{}
+		for _, ts := range all.Instants {
+			at := time.Unix(ts, 0)
+			w.Now = func() time.Time { return at }
+			a := int64(0)
+			if w.Active() {
+				a = 1
+			}
+			out = append(out, a, w.NextStart().Unix(), w.NextEnd().Unix())
+		}
+		return out
+	}
+	for i, c := range all.Configs {
+		dir := t.TempDir()
+		txt := strings.ReplaceAll(strings.ReplaceAll(c.Toml, "{OUT}", filepath.Join(dir, "out")), "{SOCK}", filepath.Join(dir, "frames.sock"))
+		os.WriteFile(filepath.Join(dir, "config.toml"), []byte(txt), 0644)
+		ev := map[string]interface{}{"ev": "cfgwindow", "i": i, "start": c.Start, "stop": c.Stop, "lat": c.Lat, "long": c.Long,
+			"err": "", "got": []int64{}, "ref": []int64{}}
+		la, _ := strconv.ParseFloat(c.Lat, 32)
+		lo, _ := strconv.ParseFloat(c.Long, 32)
+		ref, rerr := window.New(c.Start, c.Stop, float64(float32(la)), float64(float32(lo)))
+		if rerr != nil {
+			t.Fatalf("window.New(%q, %q): %v", c.Start, c.Stop, rerr)
+		}
+		conf, err := ParseConfig(dir)
+		if err != nil {
+			ev["err"] = err.Error()
+		} else {
+			w := conf.Recorder.Window
+			ev["got"] = ask(&w)
+		}
+		ev["ref"] = ask(ref)
+		enc.Encode(ev)
 	}
 }
